@@ -1,19 +1,26 @@
 """
 C14 -- cross approximation recovers low-rank data and samples only valid indices.
 
-Both clauses (recovery accuracy; every index matrix handed to the user function is M x d with column k in [0, N[k])) are decided
-by the bounded stand-in only (runtime/rt_c14.py: the user function is wrapped by a run-time contract that checks every call) --
-never counted as proved.  The deductive engine does not reach interpolate.py: the index sets are built by data-dependent maxvol
-pivoting (LU, argmax, unravel_index over value tensors) and torch.kron-composed integer tensors, which are outside the modelled
-subset (stated in DESIGN.md); no obligation is claimed.
+Deductive part (index-safety clause):
+  * maxvol.contract: _maxvol(M) returns min(m, n) row numbers of M (int64, each in [0, m)) and does not write M -- proved for all
+    m, n >= 1 with an inductive invariant for the pivot-improvement loop (`idx` stays a vector of n row numbers, `Mat` an m x n
+    matrix in fresh storage); torch.linalg.lu_factor / lu_unpack / topk / sort / numpy.unravel_index enter by assumed contracts.
+  * dmrg_cross.index_contract: every call of the user function gets an int64 M x d matrix, column k within [0, N[k]), rows laid
+    out as the C-order product left set x N[k] x N[k+1] x right set (so that the reshape to the supercore is right); no exception
+    (every advanced index and unravel_index provably in range); result well-formed of shape N; starting tensor not written.
+    _maxvol and rank_chop are used through their (separately proved) contracts.
+  * function_interpolate.values_contract: every value handed to the user function is the entry of the argument tensor(s) at the
+    row of such an index matrix (witness: the integer matrix held by the calling frame) -- one tensor and lists of tensors.
+The recovery accuracy clause is decided by the bounded stand-in only (runtime/rt_c14.py) -- never counted as proved.
 """
 from .common import *
 
-LEVEL = 'exploration'
+LEVEL = 'other'
 TRUSTED = TRUSTED_COMMON
-ASSUMPTIONS = ['bounded: orders 2..4, sizes 2..10 incl. sizes smaller than rank+kick, eps in {1e-4,1e-9}, targets with exact TT ranks 1..3 and smooth functions of the index sum, seeds; constant 20*eps',
-               'no deductive obligations (function outside the engine subset)']
-EXPLANATION = 'bounded run-time contracts (icontract) on dmrg_cross / function_interpolate with a checking wrapper around the user function'
+ASSUMPTIONS = ['deductive index contracts: orders 2, 3 (4 in the thorough tier) and 1-2 sweeps enumerated; mode sizes, ranks, kick, eps, the values returned by the user function and every value-dependent branch symbolic',
+               'assumed contracts: torch.linalg.lu_factor / torch.lu_unpack (P is a permutation matrix), Tensor.topk, torch.sort, numpy.unravel_index, torch.linalg.solve (nonsingular local matrices)',
+               'bounded (accuracy clause): orders 2..4, sizes 2..10 incl. sizes smaller than rank+kick, eps in {1e-4,1e-9}, targets with exact TT ranks 1..3 and smooth functions of the index sum, seeds; constant 20*eps']
+EXPLANATION = 'index contracts proved by symbolic execution with integer index tensors (uninterpreted entries with range facts instantiated on use), a loop invariant for the maxvol pivot loop and modular use of callee contracts; accuracy by bounded run-time contracts'
 
 
 def bounded_checks(tier, seed, repo):
